@@ -374,7 +374,132 @@ func runC18FileErrClose() []string {
 	return viol
 }
 
+// runC18ROCrash: the history is run once; the durable image after every mutating storage
+// operation (unsynced tails lost / kept) - states with orphan tables of unfinished flushes,
+// compactions and transactions, half-switched manifests, journals not yet flushed - is opened
+// READ-ONLY in audit mode and, on a copy, normally. The read-only open must succeed whenever
+// the normal one does, serve exactly what the normal one serves, and must not perform one
+// mutating storage operation.
+func runC18ROCrash(cfg string, hist []string) (viol []string, images int) {
+	var w *harness.World
+	r := vsched.Run(vsched.Options{}, func() {
+		w = harness.NewWorld(harness.Config{Name: cfg})
+		if !w.MustOpen() {
+			return
+		}
+		for _, op := range hist {
+			w.Apply(op)
+			if w.Failed() {
+				return
+			}
+		}
+		vsched.Quiesce()
+		w.Close()
+	})
+	if r.Verdict != vsched.Completed || w == nil || w.Failed() {
+		return []string{fmt.Sprintf("read-only on crash images: baseline run failed: %s %v", r.Verdict, r.PanicValue)}, 0
+	}
+	ops := w.Stor.Ops
+	seen := map[uint64]bool{}
+	rep := vstor.Replay(nil, nil)
+	scan := func(db *leveldb.DB) (map[string]string, error) {
+		m := map[string]string{}
+		it := db.NewIterator(nil, nil)
+		defer it.Release()
+		for it.Next() {
+			m[string(it.Key())] = string(it.Value())
+		}
+		return m, it.Error()
+	}
+	for p := 1; p <= len(ops) && len(viol) == 0; p++ {
+		rep.Apply(&ops[p-1])
+		if !ops[p-1].Kind.Mutating() {
+			continue
+		}
+		for _, v := range []vstor.Variant{{}, {KeepAll: true}} {
+			img := rep.Image(v)
+			h := img.Hash()
+			if seen[h] {
+				continue
+			}
+			seen[h] = true
+			if _, err := img.GetMeta(); err != nil {
+				continue // the DB was never created (no CURRENT yet): a read-only open rightly finds nothing
+			}
+			images++
+			where := fmt.Sprintf("history %v, image after %s (%s)", hist, ops[p-1].String(), v.String())
+			rw := img.Clone()
+			var roErr, rwErr error
+			var roObs, rwObs map[string]string
+			var breach []string
+			rr := vsched.Run(vsched.Options{}, func() {
+				o := harness.Config{Name: cfg}.Options()
+				o.ReadOnly = true
+				img.Audit = true
+				db, err := leveldb.Open(img, o)
+				if err != nil {
+					roErr = err
+				} else {
+					roObs, roErr = scan(db)
+					if err := db.Put([]byte("a"), []byte("x"), nil); err != leveldb.ErrReadOnly {
+						viol = append(viol, fmt.Sprintf("read-only open of a crash image: Put returned %v (%s)", err, where))
+					}
+					vsched.Sleep(90e9)
+					db.Close()
+				}
+				img.Audit = false
+				breach = img.Breach
+				o2 := harness.Config{Name: cfg}.Options()
+				db2, err := leveldb.Open(rw, o2)
+				if err != nil {
+					rwErr = err
+					return
+				}
+				rwObs, rwErr = scan(db2)
+				db2.Close()
+			})
+			if rr.Verdict != vsched.Completed {
+				viol = append(viol, fmt.Sprintf("read-only open of a crash image: execution ended with %s: %v (%s)", rr.Verdict, rr.PanicValue, where))
+				break
+			}
+			if len(breach) > 0 {
+				viol = append(viol, fmt.Sprintf("read-only open of a crash image mutated storage: %s (%s)", breach[0], where))
+				break
+			}
+			if img.Hash() != h {
+				viol = append(viol, fmt.Sprintf("read-only open of a crash image changed the stored bytes (%s)", where))
+				break
+			}
+			if rwErr != nil {
+				continue // not recoverable at all: C04's subject
+			}
+			if roErr != nil {
+				viol = append(viol, fmt.Sprintf("read-only open of a crash image fails (%v) where a normal open succeeds (%s)", roErr, where))
+				break
+			}
+			if len(roObs) != len(rwObs) {
+				viol = append(viol, fmt.Sprintf("read-only open of a crash image serves %v, a normal open %v (%s)", roObs, rwObs, where))
+				break
+			}
+			for k, x := range rwObs {
+				if roObs[k] != x {
+					viol = append(viol, fmt.Sprintf("read-only open of a crash image serves %v, a normal open %v (%s)", roObs, rwObs, where))
+					break
+				}
+			}
+		}
+	}
+	return viol, images
+}
+
+var c18Images int
+
 func runC18Own(t *c18Own) []string {
+	if t.Stor == "ro-crash" {
+		viol, n := runC18ROCrash(t.Script[0], t.Script[1:])
+		c18Images = n
+		return viol
+	}
 	if t.Stor == "file-errclose" {
 		var viol []string
 		r := vsched.Run(vsched.Options{}, func() { viol = runC18FileErrClose() })
@@ -477,7 +602,9 @@ func init() {
 			case probe.Kind == "own":
 				var t c18Own
 				json.Unmarshal(task, &t)
-				return explore.MustJSON(map[string]any{"viol": runC18Own(&t)})
+				c18Images = 0
+				v := runC18Own(&t)
+				return explore.MustJSON(map[string]any{"viol": v, "images": c18Images})
 			case probe.Scenario != "":
 				return dfsW(task)
 			}
@@ -509,9 +636,23 @@ func init() {
 				metas = append(metas, m)
 				raw = append(raw, explore.MustJSON(m))
 			}
+			// read-only open of every crash image of a few histories (orphan tables, unflushed
+			// journals, manifests half switched)
+			for _, cfg := range []string{"flushy/bytewise", "bigbatch/bytewise", "rot/bytewise"} {
+				hs := [][]string{{"Sput:a", "put:b", "trx:+a,+c", "cr", "Sdel:a"}, {"Sput:a", "trd:2", "Sput:b", "put:c"}, {"put:a", "put:b", "big", "Sput:c", "cr"}}
+				if !quick {
+					hs = append(hs, c04Long...)
+				}
+				for _, h := range hs {
+					m := c18Own{Kind: "own", Stor: "ro-crash", Script: append([]string{cfg}, h...)}
+					metas = append(metas, m)
+					raw = append(raw, explore.MustJSON(m))
+				}
+			}
 			pool.Map(raw, func(i int, b []byte, err error) {
 				var r struct {
-					Viol []string `json:"viol"`
+					Viol   []string `json:"viol"`
+					Images int      `json:"images"`
 				}
 				if err != nil {
 					r.Viol = explore.CrashViol(err)
@@ -519,6 +660,7 @@ func init() {
 					json.Unmarshal(b, &r)
 				}
 				c.Add("ownership_scripts", 1)
+				c.Add("readonly_crash_images", r.Images)
 				for _, v := range r.Viol {
 					c.Report(&explore.Violation{Property: "C18", Sig: map[string]string{"check": "ownership", "stor": metas[i].Stor, "effect": v}, Detail: map[string]any{"task": metas[i], "violation": v}})
 				}
